@@ -95,6 +95,11 @@ func replayLimiter(c rlCfg, steps []rlStep) (mis string, at int, nontrivial bool
 			t0 := time.Now()
 			var err error
 			switch {
+			case s.Mw == -1 && i%2 == 1 && s.K == 1:
+				// "no max wait" spelled through the max-wait API (-1 is the limiter's sentinel for it)
+				err = rl.AcquirePermitWithMaxWait(ctx, -1)
+			case s.Mw == -1 && i%2 == 1:
+				err = rl.AcquirePermitsWithMaxWait(ctx, s.K, -1)
 			case s.Mw == -1 && s.K == 1:
 				err = rl.AcquirePermit(ctx)
 			case s.Mw == -1:
